@@ -75,7 +75,7 @@ impl Shell {
     pub fn run(&self, command: &str, work_dir: &AbsPath, file: &str) -> Result<String, ShellError> {
         log::debug!("shell command `{command}`");
         let result = Command::new(&self.exe)
-            .current_dir(work_dir.to_string())
+            .current_dir(work_dir.as_path())
             .args(&self.args)
             .arg(command)
             .env(TXTPP_FILE, file)
